@@ -1,6 +1,7 @@
 package main
 
 import (
+	"bytes"
 	"crypto/tls"
 	"fmt"
 	"net"
@@ -168,10 +169,16 @@ func c11Wire(c *ctx) {
 			}
 		}
 		// ---- unusable material next to the working set ----
-		os.WriteFile(filepath.Join(dirA, "zz-cert.pem"), []byte("-----BEGIN CERTIFICATE-----\ngarbage\n-----END CERTIFICATE-----\n"), 0o644)
-		os.WriteFile(filepath.Join(dirA, "zz-key.pem"), []byte("garbage"), 0o600)
-		if cy%2 == 1 {
+		if cy%3 != 0 {
+			os.WriteFile(filepath.Join(dirA, "zz-cert.pem"), []byte("-----BEGIN CERTIFICATE-----\ngarbage\n-----END CERTIFICATE-----\n"), 0o644)
+			os.WriteFile(filepath.Join(dirA, "zz-key.pem"), []byte("garbage"), 0o600)
+		}
+		if cy%3 == 1 {
 			os.WriteFile(filepath.Join(dirA, "a-cert.pem"), setA[0].CertPEM[:len(setA[0].CertPEM)/2], 0o644) // a working certificate garbled
+		} else if cy%3 == 0 {
+			// (nothing else is wrong with the directory this time) a working certificate's file blown up beyond what the loader reads (a log written to the wrong path)
+			os.WriteFile(filepath.Join(dirA, "b-cert.pem"), bytes.Repeat([]byte("not a certificate\n"), 70000), 0o644)
+			os.WriteFile(filepath.Join(dirA, "b-key.pem"), bytes.Repeat([]byte("not a key\n"), 120000), 0o600)
 		}
 		for t1 := time.Now(); time.Since(t1) < 2500*time.Millisecond; time.Sleep(60 * time.Millisecond) {
 			for _, l := range ls[:3] {
